@@ -6,7 +6,7 @@ SPEC = {
     'technique': 'symbolic execution of CeiloChunk.metarize (_setup_sligrolay_pdf, _calculate_cloud_amount, '
                  'max_hits_per_layer, ceilos, wmo.perc2okta, wmo.okta2code) on symbolic hit tables with a symbolic '
                  'assignment of hits to sets; counting oracle written over pairwise z3 terms; per-path unsat',
-    'bounds': {'quick': 'tables of <= 3 hits, <= 2 ceilometers, <= 3 sets, any times/heights/types, MAX_HITS_OKTA0 and '
+    'bounds': {'quick': 'tables of <= 3 hits on <= 3 ceilometers (4 hits on one), <= 2 sets, any times/heights/types, MAX_HITS_OKTA0 and '
                         'MAX_HOLES_OKTA8 any non-negative ints; binning for larger totals through C18',
                'thorough': 'tables of <= 4 hits on <= 2 ceilometers, 3 hits on 3 ceilometers'},
     'outside': 'totals above the row bound other than through C18 (perc2okta for all n <= m); NaN time stamps',
@@ -19,7 +19,7 @@ def h_amount(E, N, C, which):
 
 
 HARNESSES = [
-    H('H-amount', h_amount, quick=[(1, 1, 'layers'), (2, 2, 'layers'), (3, 2, 'layers'), (2, 2, 'slices'), (2, 2, 'groups')],
+    H('H-amount', h_amount, quick=[(1, 1, 'layers'), (2, 2, 'layers'), (3, 2, 'layers'), (3, 3, 'layers'), (4, 1, 'layers'), (2, 2, 'slices'), (2, 2, 'groups')],
       thorough=[(1, 1, 'layers'), (2, 2, 'layers'), (3, 2, 'layers'), (3, 3, 'layers'), (4, 1, 'layers'), (4, 2, 'layers'), (3, 2, 'slices'), (3, 2, 'groups')],
       float_model='R',
       cover=['two hits of one measurement in one set', 'coincident time stamps on two ceilometers', 'okta 0 by the buffer',
